@@ -65,13 +65,13 @@ class ModelObject:
         new = copy.deepcopy(self)
         obj = new
         for key in path[:-1]:
-            if isinstance(key, int):
+            if isinstance(key, int) or isinstance(obj, dict):
                 obj = obj[key]
             else:
                 obj = getattr(obj, key)
 
         key = path[-1]
-        if isinstance(key, int):
+        if isinstance(key, int) or isinstance(obj, dict):
             obj[key] = value
         else:
             setattr(obj, key, value)
